@@ -37,10 +37,17 @@ type cfCase struct {
 	// burstFirst: the burst of 8 is queued before StartSending's messages have been answered
 	// (it races with the fault) rather than after the scripted requests
 	burstFirst bool
+	// lag: (send side) the receiver learns of the failure 1.6 s after the sender did; Close and
+	// Reset wait for it — they return only when no goroutine of the connection is left
+	lag bool
 }
 
 func (c cfCase) name() string {
-	return fmt.Sprintf("cfault/%s/%d/%s/%s/%s/%s", c.side, c.k, c.class, c.ending, B(c.fib), B(c.burstFirst))
+	n := fmt.Sprintf("cfault/%s/%d/%s/%s/%s/%s", c.side, c.k, c.class, c.ending, B(c.fib), B(c.burstFirst))
+	if c.lag {
+		n += "/lag"
+	}
+	return n
 }
 
 func cfErr(class string) error {
@@ -184,6 +191,9 @@ func cfaultCase(cs cfCase) *CaseSpec {
 			st.mu.Lock()
 			st.failSendAt, st.sendErr = cs.k, ferr
 			st.breakOnSendErr = true
+			if cs.lag {
+				st.recvLag = 1600 * time.Millisecond
+			}
 			st.mu.Unlock()
 			go cfServer(st, cs.fib, -1, nil, stop)
 		} else {
@@ -537,7 +547,15 @@ func init() {
 			return cfaultCase(cs[idx])
 		},
 		Count:    func(tier string) int { return len(cfEnumerate(tier)) },
-		Corpus:   cfOpenCorpus,
+		Corpus: func() []*CaseSpec {
+			out := cfOpenCorpus()
+			for _, k := range []int{0, 3} {
+				for _, ending := range []string{"close", "reset"} {
+					out = append(out, cfaultCase(cfCase{side: "send", k: k, class: "unavailable", ending: ending, fib: k == 0, lag: true}))
+				}
+			}
+			return out
+		},
 		Required: []string{"cf.open", "cf.send", "cf.recv", "cf.close", "cf.reset", "cf.ok"},
 		Serial:   true,
 		Atomic:   true,
